@@ -182,6 +182,22 @@ theorem durable_content_is_final {s' : State} {evs : List Event} (hr : Reachable
     exact Nat.lt_of_lt_of_le (List.mem_range.mp he) hk
   exact ⟨hk, by rw [hk _ (Nat.le_refl _)]; exact store_eq_seqSpec hA⟩
 
+/-- A batch's content is fixed at submission: along every further schedule the content recorded
+for an epoch that has been submitted stays what it was (a later `submit` can neither replace nor
+shadow it), whether or not the batch is durable yet. -/
+theorem submitted_content_is_fixed {s' : State} {evs : List Event} {e : Nat}
+    (h : run s evs = some s') (he : e ∈ s.submitted.map Task.epoch) :
+    s'.contentOf e = s.contentOf e := by
+  obtain ⟨r, hpre⟩ := (run_mono h).2.1
+  obtain ⟨t, ht, hte⟩ := List.mem_map.mp he
+  unfold State.contentOf
+  rw [← hpre, List.find?_append]
+  cases hf : s.submitted.find? (fun t => t.epoch == e) with
+  | some x => rfl
+  | none =>
+    have := List.find?_eq_none.mp hf t ht
+    simp [hte] at this
+
 /-- Writes of one logical batch touch pairwise distinct store keys (the batch is a set of hash maps),
 so the hash-map iteration order inside a batch is irrelevant. -/
 theorem within_batch_commutes {l₁ l₂ : List WOp} (hp : l₁.Perm l₂) (hn : (l₁.map WOp.key).Nodup)
